@@ -3,7 +3,7 @@ use thiserror::Error;
 use crate::Statement;
 use crate::type_variable::TypeVariable;
 use crate::typed_ast::{
-    DType, DTypeFactor, DefineVariable, Expression, StructInfo, StructKind, Type,
+    DType, DTypeFactor, DefineVariable, Expression, StringPart, StructInfo, StructKind, Type,
 };
 
 /// A mapping from type variables to types, computed during unification.
@@ -233,7 +233,14 @@ impl ApplySubstitution for Expression<'_> {
                 then_expr.apply(s)?;
                 else_expr.apply(s)
             }
-            Expression::String(_, _) => Ok(()),
+            Expression::String(_, parts) => {
+                for part in parts {
+                    if let StringPart::Interpolation { expr, .. } = part {
+                        expr.apply(s)?;
+                    }
+                }
+                Ok(())
+            }
             Expression::InstantiateStruct {
                 fields,
                 struct_info,
